@@ -541,92 +541,157 @@ func elementwiseInHelper(c *Ctx, p *packages.Package, hc *ast.FuncDecl) (found b
 // the data (the literals concatenated without their separator), two different files can have one hash: the text file is
 // not rewritten, no reload is sent, and the running program keeps pairing its literal indices with the old text.
 func hashedBytesAreWrittenBytes(c *Ctx, rule string) {
+	n := writesGatedByOwnHash(c, rule, "hash-of-the-written-bytes")
+	c.count("upsert_hash_sites", n)
+	c.floor(rule, 1)
+}
+
+// writesGatedByOwnHash: in package generatecmd, every call of a file-writer value W(name, bytes) lies on paths that took
+// UpsertHash(name, H) as true where H is sha256.Sum256 of those same bytes (one value, not a hash assembled piecewise)
+// and name is the same expression — whether the test and the write sit in the generate function or in a helper that
+// receives name and bytes as parameters. Returns the number of writer calls decided.
+func writesGatedByOwnHash(c *Ctx, rule, suffix string) int {
 	p := c.pkg("cmd/templ/generatecmd")
 	info := p.TypesInfo
-	n := 0
-	rootObj := func(e ast.Expr) types.Object {
-		for {
-			switch x := ast.Unparen(e).(type) {
-			case *ast.CallExpr:
-				if len(x.Args) == 1 {
-					if tv, ok := info.Types[x.Fun]; ok && tv.IsType() {
-						e = x.Args[0]
-						continue
-					}
+	isWriterValue := func(call *ast.CallExpr) bool {
+		if fn := calleeOf(info, call); fn != nil && fullName(fn) == "os.WriteFile" {
+			return true
+		}
+		if se, ok := call.Fun.(*ast.SelectorExpr); ok && isFileWriterField(info, se) {
+			return true
+		}
+		if id, ok := call.Fun.(*ast.Ident); ok {
+			if v, isVar := info.ObjectOf(id).(*types.Var); isVar {
+				if sig, ok := v.Type().Underlying().(*types.Signature); ok && sig.Params().Len() == 2 && sig.Results().Len() == 1 &&
+					isStringType(sig.Params().At(0).Type()) && sig.Params().At(1).Type().String() == "[]byte" {
+					return true
 				}
-				return nil
-			case *ast.Ident:
-				return info.ObjectOf(x)
-			default:
-				return nil
+			}
+			if fn, isFn := info.ObjectOf(id).(*types.Func); isFn && fn.Pkg() == p.Types {
+				if sig := fn.Type().(*types.Signature); sig.Params().Len() == 2 && sig.Results().Len() == 1 &&
+					isStringType(sig.Params().At(0).Type()) && sig.Params().At(1).Type().String() == "[]byte" && sig.Results().At(0).Type().String() == "error" {
+					return true // the package's default writer function called directly
+				}
 			}
 		}
+		return false
 	}
+	stripConv := func(e ast.Expr) ast.Expr {
+		for {
+			e = ast.Unparen(e)
+			if call, ok := e.(*ast.CallExpr); ok && len(call.Args) == 1 {
+				if tv, ok := info.Types[call.Fun]; ok && tv.IsType() {
+					e = call.Args[0]
+					continue
+				}
+			}
+			return e
+		}
+	}
+	n := 0
 	for _, fd := range allFuncDecls(p) {
+		if fd.Body == nil {
+			continue
+		}
+		has := false
 		ast.Inspect(fd.Body, func(x ast.Node) bool {
-			is, ok := x.(*ast.IfStmt)
-			if !ok {
-				return true
+			if call, ok := x.(*ast.CallExpr); ok && isWriterValue(call) {
+				has = true
 			}
-			call, ok := ast.Unparen(is.Cond).(*ast.CallExpr)
-			if !ok || len(call.Args) != 2 {
-				return true
-			}
-			fn := calleeOf(info, call)
-			if fn == nil || fn.Name() != "UpsertHash" {
-				return true
-			}
-			n++
-			nameObj := rootObj(call.Args[0])
-			hashObj := rootObj(call.Args[1])
-			// what was hashed
-			var hashed types.Object
-			how := ""
-			ast.Inspect(fd.Body, func(y ast.Node) bool {
-				as, ok := y.(*ast.AssignStmt)
-				if !ok || len(as.Lhs) != 1 || len(as.Rhs) != 1 {
-					return true
-				}
-				if lid, ok := as.Lhs[0].(*ast.Ident); !ok || info.ObjectOf(lid) != hashObj {
-					return true
-				}
-				if hc, ok := as.Rhs[0].(*ast.CallExpr); ok && len(hc.Args) == 1 {
-					if hf := calleeOf(info, hc); hf != nil && strings.HasPrefix(fullName(hf), "crypto/sha256.Sum") {
-						hashed = rootObj(hc.Args[0])
-						how = types.ExprString(hc.Args[0])
-					}
-				}
-				return true
-			})
-			// what is written under the same name inside the branch
-			var written types.Object
-			wrote := ""
-			ast.Inspect(is.Body, func(y ast.Node) bool {
-				wc, ok := y.(*ast.CallExpr)
-				if !ok || len(wc.Args) < 2 {
-					return true
-				}
-				if rootObj(wc.Args[0]) != nameObj || nameObj == nil {
-					return true
-				}
-				written = rootObj(wc.Args[1])
-				wrote = types.ExprString(wc.Args[1])
-				return true
-			})
-			why := ""
-			switch {
-			case hashed == nil:
-				why = "the hash (" + types.ExprString(call.Args[1]) + ") is not sha256.Sum256 of a single value (it is assembled piecewise, so its input is not the byte sequence that gets written)"
-			case written == nil:
-				why = "no write of " + types.ExprString(call.Args[0]) + " was found in the `changed` branch"
-			case hashed != written:
-				why = "the hash is taken over " + how + " but " + wrote + " is written"
-			}
-			c.check(why == "", rule, fmt.Sprintf("%s|UpsertHash(%s)|hash-of-the-written-bytes", funcKey(p, fd), types.ExprString(call.Args[0])), c.pos(is.Pos()), "sha256 of "+how+", and the same value is written",
-				fmt.Sprintf("%s: %s. Two different contents can then share a hash (moving a literal boundary: `<p>EUR{ t }</p>` → `<p>{ t }EUR</p>` concatenates to the same text), the file is not rewritten, no reload is sent and the running program renders the old layout", fd.Name.Name, why))
 			return true
 		})
+		if !has {
+			continue
+		}
+		// a function that itself IS a writer (name, bytes) → error implements the write; the gating is its callers' business
+		if obj, ok := info.Defs[fd.Name].(*types.Func); ok {
+			if sig := obj.Type().(*types.Signature); sig.Recv() == nil && sig.Params().Len() == 2 && sig.Results().Len() == 1 &&
+				isStringType(sig.Params().At(0).Type()) && sig.Params().At(1).Type().String() == "[]byte" && sig.Results().At(0).Type().String() == "error" {
+				continue
+			}
+		}
+		den := &denum{info: info, pkg: p.Types, inits: map[types.Object]ast.Expr{}, limit: 20000, opaqueLoops: true}
+		den.finish(den.run(fd.Body.List, []dstate{{env: map[types.Object]ast.Expr{}}}))
+		if den.undecided != "" {
+			c.undec(rule, funcKey(p, fd)+"|"+suffix, c.pos(fd.Pos()), fd.Name.Name+" contains "+den.undecided)
+			continue
+		}
+		type verdict struct {
+			pos token.Pos
+			why string
+			ok  bool
+		}
+		byCall := map[*ast.CallExpr]*verdict{}
+		var order []*ast.CallExpr
+		for _, pth := range den.paths {
+			var stmts []ast.Node
+			for _, st := range pth.Trace {
+				stmts = append(stmts, st)
+			}
+			if pth.Ret != nil {
+				stmts = append(stmts, pth.Ret)
+			}
+			for _, st := range stmts {
+				ast.Inspect(st, func(x ast.Node) bool {
+					wc, ok := x.(*ast.CallExpr)
+					if !ok || !isWriterValue(wc) || len(wc.Args) < 2 {
+						return true
+					}
+					if _, isLit := x.(*ast.FuncLit); isLit {
+						return false
+					}
+					v := byCall[wc]
+					if v == nil {
+						v = &verdict{pos: wc.Pos(), ok: true}
+						byCall[wc] = v
+						order = append(order, wc)
+					}
+					nameTxt := types.ExprString(den.deref(wc.Args[0], pth.Env))
+					bytesTxt := types.ExprString(stripConv(den.deref(stripConv(wc.Args[1]), pth.Env)))
+					gated := false
+					why := "no UpsertHash test for " + types.ExprString(wc.Args[0]) + " was taken as true on a path that writes it"
+					for _, pc := range pth.Conds {
+						uc, ok := ast.Unparen(pc.Expr).(*ast.CallExpr)
+						if !ok || !pc.Val || len(uc.Args) != 2 {
+							continue
+						}
+						if fn := calleeOf(info, uc); fn == nil || fn.Name() != "UpsertHash" {
+							continue
+						}
+						if types.ExprString(den.deref(uc.Args[0], pth.Env)) != nameTxt {
+							why = "the write of " + nameTxt + " is gated by the hash recorded under " + types.ExprString(uc.Args[0])
+							continue
+						}
+						h := den.deref(uc.Args[1], pth.Env)
+						hc, isCall := ast.Unparen(h).(*ast.CallExpr)
+						if !isCall || len(hc.Args) != 1 {
+							why = "the hash (" + types.ExprString(uc.Args[1]) + ") is not sha256.Sum256 of a single value (it is assembled piecewise, so its input is not the byte sequence that is written)"
+							continue
+						}
+						if hf := calleeOf(info, hc); hf == nil || !strings.HasPrefix(fullName(hf), "crypto/sha256.Sum") {
+							why = "the hash (" + types.ExprString(uc.Args[1]) + ") is not sha256.Sum256 of a single value (it is assembled piecewise, so its input is not the byte sequence that is written)"
+							continue
+						}
+						hashedTxt := types.ExprString(stripConv(den.deref(stripConv(hc.Args[0]), pth.Env)))
+						if hashedTxt != bytesTxt {
+							why = "the hash is taken over " + hashedTxt + " but " + bytesTxt + " is written"
+							continue
+						}
+						gated = true
+					}
+					if !gated {
+						v.ok, v.why = false, why
+					}
+					return true
+				})
+			}
+		}
+		for i, wc := range order {
+			v := byCall[wc]
+			n++
+			c.check(v.ok, rule, fmt.Sprintf("%s|write#%d(%s)|%s", funcKey(p, fd), i+1, types.ExprString(wc.Args[0]), suffix), c.pos(v.pos), "written only after UpsertHash(<same name>, sha256.Sum256(<same bytes>)) reported a change",
+				fmt.Sprintf("%s: %s. Two different contents can then share a hash (moving a literal boundary: `<p>EUR{ t }</p>` → `<p>{ t }EUR</p>` concatenates to the same text), or a file is rewritten / left stale according to another file's hash", fd.Name.Name, v.why))
+		}
 	}
-	c.count("upsert_hash_sites", n)
-	c.floor(rule, 2)
+	return n
 }
